@@ -94,6 +94,7 @@ Lemma h_add_rule_ok : forall os h l gh g,
     hrg_ok os (fst (h_add_rule h (Rule l gh) g)).
 Proof.
   intros os h l gh g OK Hg RO. pose proof OK as [T K L S R]. unfold h_add_rule. cbn [r_lhs].
+  destruct (labels_clash (t_el (h_tab h)) (l :: map (fun ke => e_label (snd ke)) (g_edges g))); [cbn; assumption|].
   destruct (t_add_edge_label (h_tab h) l) as [t1 r1] eqn:E1.
   destruct (add_edge_label_spec _ _ _ _ E1 T) as (A1 & B1 & C1 & D1 & F1 & _).
   destruct r1 as [| |k]; [|destruct F1; discriminate | cbn; assumption].
@@ -126,14 +127,47 @@ Proof.
       intros k0 e0 H. apply (C3 eq_refl (k0, e0)). assumption.
 Qed.
 
-(** * copies of graphs *)
-Lemma has_all_consistent : forall ns g, (forall n, In n ns -> has_node g n) -> nodes_consistent (g_nodes g) ns = true.
+(** after the clash test the registration of a rule's labels cannot raise *)
+Lemma labels_clash_step : forall t l ls,
+    labels_clash (t_el t) (l :: ls) = false ->
+    exists t', t_add_edge_label t l = (t', ROk) /\ labels_clash (t_el t') ls = false.
 Proof.
-  induction ns as [|n ns IH]; intros g H; cbn; [reflexivity|].
-  rewrite (H n) by (left; reflexivity). unfold node_eqb. destruct (node_eq_dec n n); [|congruence].
-  cbn. apply IH. intros; apply H; right; assumption.
+  intros t l ls H. cbn in H. unfold t_add_edge_label.
+  destruct (aget Nat.eq_dec (t_el t) (el_name l)) as [l'|] eqn:G.
+  - destruct (elabel_eq_dec l' l) as [->|]; [|discriminate].
+    eexists. split; [reflexivity|]. cbn. rewrite (aset_id Nat.eq_dec _ _ _ G). assumption.
+  - eexists. split; [reflexivity|]. cbn. assumption.
 Qed.
 
+Lemma fold_nl_el : forall (l : list (ident * node)) t,
+    t_el (fold_left (fun t kn => t_add_node_label t (n_label (snd kn))) l t) = t_el t.
+Proof. induction l as [|x l IH]; intros t; cbn; [reflexivity|]. rewrite IH. reflexivity. Qed.
+
+Lemma labels_clash_fold : forall (es : list (ident * edge)) t,
+    labels_clash (t_el t) (map (fun ke => e_label (snd ke)) es) = false ->
+    is_err (snd (fold_err (fun t ke => t_add_edge_label t (e_label (snd ke))) es t)) = false.
+Proof.
+  induction es as [|x es IH]; intros t H; cbn; [reflexivity|].
+  destruct (labels_clash_step _ _ _ H) as (t' & E & H'). rewrite E. apply IH. assumption.
+Qed.
+
+(** add_rule either raises and changes nothing, or succeeds *)
+Lemma h_add_rule_cases : forall h r g,
+    h_add_rule h r g = (h, RErr ValueErr) \/ snd (h_add_rule h r g) = ROk.
+Proof.
+  intros h r g. unfold h_add_rule.
+  destruct (labels_clash (t_el (h_tab h)) (r_lhs r :: map (fun ke => e_label (snd ke)) (g_edges g))) eqn:LC; [left; reflexivity|].
+  right. destruct (labels_clash_step _ _ _ LC) as (t1 & E1 & LC1). rewrite E1.
+  pose proof (labels_clash_fold (g_edges g)
+              (fold_left (fun t kn => t_add_node_label t (n_label (snd kn))) (g_nodes g) t1)) as F.
+  rewrite fold_nl_el in F. specialize (F LC1).
+  pose proof (fold_err_result (fun t ke => t_add_edge_label t (e_label (snd ke))) (g_edges g)
+              (fold_left (fun t kn => t_add_node_label t (n_label (snd kn))) (g_nodes g) t1)) as FR.
+  destruct (fold_err _ (g_edges g) _) as [t3 r3]. cbn in *.
+  destruct FR as [->|[k ->]]; [reflexivity | discriminate].
+Qed.
+
+(** * copies of graphs *)
 Lemma g_add_node_result : forall g n, snd (g_add_node g n) = ROk \/ snd (g_add_node g n) = RErr ValueErr.
 Proof. intros. unfold g_add_node. destruct (amem ident_eq_dec (g_nodes g) (n_id n)); cbn; auto. Qed.
 
@@ -154,40 +188,35 @@ Proof.
     + inversion E; subst. split; [assumption | cbn; discriminate].
 Qed.
 
-Lemma g_add_edge_keeps : forall g e n, tab_ok (g_tab g) -> has_node g n -> has_node (fst (g_add_edge g e)) n.
+Lemma g_add_edge_keeps : forall g e n, has_node g n -> has_node (fst (g_add_edge g e)) n.
 Proof.
-  intros g e n TO H. pose proof (add_missing_grows (e_nodes e) g) as GR.
-  destruct (g_add_edge_cases g e TO) as [[E _]|[[E _]|(t' & E & _)]]; rewrite E; cbn [fst].
-  - assumption.
-  - apply (gr_nodes _ _ GR). assumption.
-  - unfold has_node. cbn. apply (gr_nodes _ _ GR). assumption.
+  intros g e n H.
+  destruct (g_add_edge_cases g e) as [E|(add & t' & CN & E & _)]; rewrite E; cbn [fst]; [assumption|].
+  unfold has_node. cbn. apply (gr_nodes _ _ (add_all_grows add g)). assumption.
 Qed.
 
 Lemma edges_phase : forall l c1 c2 r,
     fold_err g_add_edge l c1 = (c2, r) -> graph_ok c1 ->
-    (forall e n, In e l -> In n (e_nodes e) -> has_node c1 n) ->
     (forall e, In e l -> el_ty (e_label e) = map n_label (e_nodes e)) ->
     graph_ok c2 /\ (forall n, has_node c1 n -> has_node c2 n) /\ g_ext c2 = g_ext c1 /\
     forall k e, In (k, e) (g_edges c2) -> In (k, e) (g_edges c1) \/ In e l.
 Proof.
-  induction l as [|e l IH]; intros c1 c2 r E OK HN TY; cbn in E.
+  induction l as [|e l IH]; intros c1 c2 r E OK TY; cbn in E.
   - inversion E; subst. auto.
   - assert (OK' : graph_ok (fst (g_add_edge c1 e))).
-    { apply g_add_edge_ok; [assumption | apply TY; left; reflexivity|].
-      intros _. apply has_all_consistent. intros n Hn. eapply HN; [left; reflexivity | assumption]. }
-    pose proof (g_add_edge_keeps c1 e) as KP. pose proof (g_add_edge_shape c1 e (gk_tab _ OK)) as [SX SE].
+    { apply g_add_edge_ok; [assumption | apply TY; left; reflexivity]. }
+    pose proof (g_add_edge_keeps c1 e) as KP. pose proof (g_add_edge_shape c1 e) as [SX SE].
     destruct (g_add_edge c1 e) as [c1' r1]. cbn [fst snd] in *.
     assert (DONE : (c2, r) = (c1', r1) \/ fold_err g_add_edge l c1' = (c2, r)).
     { destruct r1; auto. }
     destruct DONE as [D|D].
     + inversion D; subst. split; [exact OK'|]. split; [|split; [exact SX|]].
-      * intros n Hn. apply KP; [apply OK | assumption].
+      * intros n Hn. apply KP. assumption.
       * intros k e0 H. destruct (SE _ _ H) as [X|[-> _]]; [left; assumption | right; left; reflexivity].
     + destruct (IH _ _ _ D OK') as (A & B & C & F).
-      * intros e0 n H1 H2. apply KP; [apply OK|]. eapply HN; [right; eassumption | assumption].
       * intros e0 H. apply TY. right. assumption.
       * split; [exact A|]. split; [|split; [congruence|]].
-        -- intros n Hn. apply B. apply KP; [apply OK | assumption].
+        -- intros n Hn. apply B. apply KP. assumption.
         -- intros k e0 H. destruct (F _ _ H) as [X|X]; [|right; right; assumption].
            destruct (SE _ _ X) as [Y|[-> _]]; [left; assumption | right; left; reflexivity].
 Qed.
@@ -197,37 +226,43 @@ Proof.
   intros. split; cbn; try apply keyed_nil; try apply tab_ok_empty; try (intros ? ? ? []); try (intros ? ? []); intros ? [].
 Qed.
 
-(** a copy of a well-formed graph (under the F13 guard for plain graphs) is well formed, has
-    the same external nodes, and only edges of the original *)
+(** a copy of a well-formed graph is well formed, has the same external nodes, the same label
+    tables, and only edges of the original *)
 Lemma g_copy_ok : forall g c,
-    graph_ok g -> g_copy g = inl c -> plain_copy_ok g = true ->
-    graph_ok c /\ g_ext c = g_ext g /\ forall k e, In (k, e) (g_edges c) -> In (k, e) (g_edges g).
+    graph_ok g -> g_copy g = inl c ->
+    graph_ok c /\ g_ext c = g_ext g /\ (forall k e, In (k, e) (g_edges c) -> In (k, e) (g_edges g)) /\
+    t_nl (g_tab c) = t_nl (g_tab g) /\ t_el (g_tab c) = t_el (g_tab g).
 Proof.
-  intros g c OK E G. unfold g_copy in E. unfold plain_copy_ok in G.
+  intros g c OK E. unfold g_copy in E.
   destruct (g_fg g) eqn:FG.
   - destruct (fold_err g_add_node (map snd (g_nodes g)) (empty_graph true)) as [c1 r1] eqn:E1.
     destruct (nodes_phase _ _ _ _ E1) as [G1 H1].
-    destruct r1 as [| |k1]; [| |discriminate].
-    all: destruct (fold_err g_add_edge (map snd (g_edges g)) c1) as [c2 r2] eqn:E2.
-    all: assert (HAS : forall n, has_node g n -> has_node c1 n)
-      by (intros n Hn; apply H1; [reflexivity|]; apply aget_In in Hn;
-          change n with (snd (n_id n, n)); apply in_map; assumption).
-    all: destruct (edges_phase _ _ _ _ E2 (grows_ok _ _ (empty_graph_ok true) G1)) as (A & B & C & D);
-      [ intros e n He Hn; apply in_map_iff in He; destruct He as [[k e'] [<- He]]; apply HAS; eapply (gk_att _ OK); eauto
-      | intros e He; apply in_map_iff in He; destruct He as [[k e'] [<- He]]; eapply (gk_typed _ OK); eauto |].
-    all: destruct r2 as [| |k2]; [| |discriminate].
-    all: inversion E; subst c; cbn.
-    all: split; [|split; [reflexivity|]].
-    all: try (destruct A as [a1 a2 [a3 a4] a5 a6 a7 a8]; split; cbn; auto; [split; assumption|];
-              intros n Hn; apply B, HAS, (gk_ext _ OK); assumption).
-    all: intros k e H; destruct (D _ _ H) as [X|X];
-      [ rewrite (gr_edges _ _ G1) in X; destruct X
-      | apply in_map_iff in X; destruct X as [[k' e'] [<- X]]; cbn;
-        pose proof (proj2 (gk_edges _ OK) _ _ X) as K1; pose proof (proj2 (gk_edges _ A) _ _ H) as K2;
-        cbn in *; congruence ].
-  - cbn in G. destruct (g_edges g) eqn:ED; [|discriminate]. inversion E; subst c.
-    split; [|split; [reflexivity | cbn; try rewrite ED; intros ? ? []]].
-    destruct OK as [N Ed T A X R Ty].
-    split; cbn; auto; try rewrite ED; try apply tab_ok_empty; try apply keyed_nil;
-      try (intros ? ? ? []); try (intros ? ? []).
+    assert (NE1 : is_err r1 = false) by (destruct r1; [reflexivity | reflexivity | discriminate]).
+    assert (E' : match fold_err g_add_edge (map snd (g_edges g)) c1 with
+                 | (_, RErr k) => inr k
+                 | (c0, _) => inl (gset_tab (gset_ext c0 (g_ext g))
+                                            (mkT (t_nl (g_tab g)) (t_el (g_tab g)) (t_dom (g_tab g)) (t_fac (g_tab g))))
+                 end = inl c) by (destruct r1; [exact E | exact E | discriminate]).
+    clear E. destruct (fold_err g_add_edge (map snd (g_edges g)) c1) as [c2 r2] eqn:E2.
+    assert (HAS : forall n, has_node g n -> has_node c1 n).
+    { intros n Hn. apply H1; [assumption|]. apply aget_In in Hn. change n with (snd (n_id n, n)). apply in_map. assumption. }
+    destruct (edges_phase _ _ _ _ E2 (grows_ok _ _ (empty_graph_ok true) G1)) as (A & B & C & D).
+    { intros e He. apply in_map_iff in He. destruct He as [[k e'] [<- He]]. eapply (gk_typed _ OK); eauto. }
+    assert (Ec : c = gset_tab (gset_ext c2 (g_ext g))
+                              (mkT (t_nl (g_tab g)) (t_el (g_tab g)) (t_dom (g_tab g)) (t_fac (g_tab g))))
+      by (destruct r2; inversion E'; reflexivity).
+    subst c. cbn.
+    assert (SUB : forall k e, In (k, e) (g_edges c2) -> In (k, e) (g_edges g)).
+    { intros k e H. destruct (D _ _ H) as [X|X].
+      - rewrite (gr_edges _ _ G1) in X. destruct X.
+      - apply in_map_iff in X. destruct X as [[k' e'] [<- X]]. cbn.
+        pose proof (proj2 (gk_edges _ OK) _ _ X) as K1. pose proof (proj2 (gk_edges _ A) _ _ H) as K2.
+        cbn in *. congruence. }
+    split; [|auto].
+    destruct A as [a1 a2 a3 a4 a5 a6 a7]. destruct (gk_tab _ OK) as [t1 t2]. split; cbn; auto.
+    + split; assumption.
+    + intros n Hn. apply B, HAS, (gk_ext _ OK). assumption.
+    + intros k e H. unfold registered. cbn. apply (gk_reg _ OK k e). apply SUB. assumption.
+  - inversion E; subst c. cbn. split; [|auto].
+    destruct OK as [N Ed [t1 t2] A X R Ty]. split; cbn; auto. split; assumption.
 Qed.
